@@ -5,7 +5,7 @@
 (* come from Names.tla (validity, wire format, label algebra), from the   *)
 (* presentation sub-model below (RFC 1035 5.1 text) and, for texts near   *)
 (* the length limits, from running NameBuilder.tla over the symbols.      *)
-EXTENDS NameBuilder, Json
+EXTENDS NameBuilder, Json, FiniteSets
 
 CONSTANTS Alpha,      \* octets labels are made of
           MaxLab,     \* longest label in one-label names
@@ -431,7 +431,12 @@ ParsedCase(v) ==
             afs |-> "ok", eq |-> TRUE, cmp |-> TRUE,
             \* Name::from_str of the parsed name's Display gives the name
             disp |-> TRUE,
-            len |-> WireLenAbs(p.name), end |-> EndFrom(r.msg, r.pos)]
+            len |-> WireLenAbs(p.name), end |-> EndFrom(r.msg, r.pos),
+            \* iter_suffixes, repeated split_first ([label, rest]), repeated parent
+            psuffixes |-> [j \in 1..(Len(p.name) + 1) |-> ToWireAbs(SubSeq(p.name, j, Len(p.name)))],
+            psf |-> [j \in 1..Len(p.name) |->
+                       <<ToWireRel(<<p.name[j]>>), ToWireAbs(SubSeq(p.name, j + 1, Len(p.name)))>>],
+            ppar |-> [j \in 1..Len(p.name) |-> ToWireAbs(SubSeq(p.name, j + 1, Len(p.name)))]]
   IN [in |-> [k |-> "parsed", msg |-> r.msg, pos |-> r.pos, kind |-> r.kind],
       exp |-> IF p.ok THEN e ELSE [ok |-> FALSE],
       \* ParsedName prints the root name as the empty string
@@ -444,6 +449,80 @@ ParsedLaw ==
     IN IF ValidAbs(val[1]) THEN p.ok /\ p.name = val[1] ELSE ~p.ok
 
 ---------------------------------------------------------------------------
+---------------------------------------------------------------------------
+(* mode "ranges": every slicing entry point with every form of range      *)
+(* bounds.  A bound is <<"U", -1>> (unbounded), <<"I", i>> (included) or  *)
+(* <<"E", i>> (excluded); the executor calls each entry point with every  *)
+(* Rust range syntax that produces these bounds (a..b, a.., ..b, ..,      *)
+(* a..=b, ..=b and (Bound, Bound) tuples).  A call is either refused (the *)
+(* documented panic) or returns the labels between two label boundaries;  *)
+(* the tables below list exactly the accepted calls with their results.   *)
+(* Slicing an absolute name yields a relative name and must therefore     *)
+(* never reach past the root label: an open end is refused.               *)
+
+RLabs == {<<97>>, <<0, 46>>}
+RNames == {<<>>} \cup {<<a>> : a \in RLabs} \cup {<<a, b>> : a \in RLabs, b \in RLabs}
+          \cup {<<a, b, c>> : a \in RLabs, b \in RLabs, c \in RLabs}
+          \cup {LabelsOf(<<63, 63, 63, 61>>), LabelsOf(<<1, 63, 2>>)}
+Bounds(n) == {Off(n, j) : j \in 0..Len(n)}          \* label starts, incl. the root label / the end
+LabAt(n, x) == CHOOSE j \in 0..Len(n) : Off(n, j) = x
+\* indexes tried: everything for short names, the neighbourhood of the
+\* boundaries and of the end for long ones
+IdxSet(n) == LET top == Len(ToWireAbs(n)) + 1
+             IN IF top <= 13 THEN 0..top
+                ELSE {x \in 0..top : (\E b \in Bounds(n) : x >= b - 1 /\ x <= b + 1) \/ x >= top - 2}
+SortedSeq(S) == [i \in 1..Cardinality(S) |-> CHOOSE x \in S : Cardinality({y \in S : y < x}) = i - 1]
+BoundList(n) == LET ix == SortedSeq(IdxSet(n))
+                IN << <<"U", -1>> >> \o [i \in 1..Len(ix) |-> <<"I", ix[i]>>]
+                                   \o [i \in 1..Len(ix) |-> <<"E", ix[i]>>]
+\* accepted (lo, hi) pairs in the order lo-major, with the result computed by f
+RangeTable(n, Acc(_, _), Val(_, _)) ==
+  LET bl == BoundList(n)
+      m == Len(bl)
+      pairs == [i \in 1..(m * m) |-> <<bl[((i - 1) \div m) + 1], bl[((i - 1) % m) + 1]>>]
+      good == SelectSeq(pairs, LAMBDA pr : Acc(pr[1], pr[2]))
+  IN [i \in 1..Len(good) |->
+        <<good[i][1][1], good[i][1][2], good[i][2][1], good[i][2][2], Val(good[i][1], good[i][2])>>]
+StartOf(lo) == IF lo[1] = "U" THEN 0 ELSE lo[2]
+EndOf(hi, open) == IF hi[1] = "U" THEN open ELSE IF hi[1] = "I" THEN hi[2] + 1 ELSE hi[2]
+RangesCase(n) ==
+  LET k == Len(n)
+      w == ToWireAbs(n)
+      relend == Len(w) - 1
+      \* Name::slice / Name::range: an open end is refused
+      AbsAcc(lo, hi) == /\ lo[1] # "E" /\ hi[1] # "U"
+                        /\ StartOf(lo) \in Bounds(n) /\ EndOf(hi, 0) \in Bounds(n)
+                        /\ StartOf(lo) <= EndOf(hi, 0)
+      AbsVal(lo, hi) == ToWireRel(SubSeq(n, LabAt(n, StartOf(lo)) + 1, LabAt(n, EndOf(hi, 0))))
+      \* RelativeName::slice / range: an open end is the end of the name
+      RelAcc(lo, hi) == /\ lo[1] # "E"
+                        /\ StartOf(lo) \in Bounds(n) /\ EndOf(hi, relend) \in Bounds(n)
+                        /\ StartOf(lo) <= EndOf(hi, relend)
+      RelVal(lo, hi) == ToWireRel(SubSeq(n, LabAt(n, StartOf(lo)) + 1, LabAt(n, EndOf(hi, relend))))
+      ix == SortedSeq(IdxSet(n))
+      starts == SelectSeq(ix, LAMBDA x : x \in Bounds(n))
+  IN [in |-> [k |-> "ranges", wire |-> w, idx |-> ix],
+      exp |-> [abs |-> RangeTable(n, AbsAcc, AbsVal),
+               rel |-> RangeTable(n, RelAcc, RelVal),
+               \* slice_from / range_from / split / truncate: accepted indexes
+               from |-> [i \in 1..Len(starts) |->
+                           <<starts[i], ToWireRel(SubSeq(n, 1, LabAt(n, starts[i]))),
+                             ToWireAbs(SubSeq(n, LabAt(n, starts[i]) + 1, k))>>],
+               rcut |-> [i \in 1..Len(starts) |->
+                           <<starts[i], ToWireRel(SubSeq(n, 1, LabAt(n, starts[i]))),
+                             ToWireRel(SubSeq(n, LabAt(n, starts[i]) + 1, k))>>],
+               suffixes |-> [j \in 1..(k + 1) |-> ToWireAbs(SubSeq(n, j, k))],
+               psuffixes |-> [j \in 1..(k + 1) |-> ToWireAbs(SubSeq(n, j, k))],
+               \* [label count, first label, last label]
+               ends |-> <<k + 1, IF k = 0 THEN <<>> ELSE n[1], <<>>>>,
+               rends |-> IF k = 0 THEN <<0, "none", "none">> ELSE <<k, n[1], n[k]>>,
+               sf |-> IF k = 0 THEN <<"none">> ELSE <<n[1], ToWireAbs(Tail(n))>>,
+               rsf |-> IF k = 0 THEN <<"none">> ELSE <<n[1], ToWireRel(Tail(n))>>,
+               \* ParsedName::split_first / parent, step by step: [label, rest]
+               psf |-> [j \in 1..k |-> <<ToWireRel(<<n[j]>>), ToWireAbs(SubSeq(n, j + 1, k))>>],
+               ppar |-> [j \in 1..k |-> ToWireAbs(SubSeq(n, j + 1, k))]],
+      dev |-> <<>>]
+
 \* (the builder variables of NameBuilder.tla are not used here)
 NInit == /\ st = InitSt /\ last = NoCall
          /\ \/ mode = "name" /\ val \in NameSet
@@ -454,6 +533,7 @@ NInit == /\ st = InitSt /\ last = NoCall
             \/ mode = "zone" /\ val \in ZoneOwners
             \/ mode = "zscan" /\ val \in ZScanSet
             \/ mode = "parsed" /\ val \in ParsedSet
+            \/ mode = "ranges" /\ val \in RNames
 NNext == UNCHANGED <<mode, val, st, last>>
 NSpec == NInit /\ [][NNext]_<<mode, val, st, last>>
 
@@ -467,4 +547,5 @@ Emit ==
     [] mode = "zone"  -> PrintT("CASE " \o ToJson(ZoneCase(val)))
     [] mode = "zscan" -> PrintT("CASE " \o ToJson(ZScanCase(val)))
     [] mode = "parsed" -> PrintT("CASE " \o ToJson(ParsedCase(val)))
+    [] mode = "ranges" -> PrintT("CASE " \o ToJson(RangesCase(val)))
 =============================================================================
